@@ -35,7 +35,7 @@ PROPERTY = 'C20'
 LEVEL = 'exploration'
 RULE = ('Hypothesis RuleBasedStateMachine histories (30 steps, thorough 50) against one WSGI application with five '
         'layers (file/sqlite cache x meta-tile/single-tile creation from a WMS source, file cache from a tile source), '
-        'four tiles per layer, a virtual clock (time.time of the cache modules, file mtimes set by the harness, '
+        'four tiles per layer, a generated server time zone (UTC, 4 west, 3 east) and season per history, a virtual clock (time.time of the cache modules, file mtimes set by the harness, '
         'refresh_before marker files): rules = GET through TMS / WMTS-KVP / WMTS-REST / KML / WMS-C with generated '
         'If-None-Match x If-Modified-Since (alone and together), direct rewrite through the cache object (ground '
         'content of varying size / solid colours of equal size), removal, expiry + refresh through MapProxy, clock '
@@ -43,7 +43,10 @@ RULE = ('Hypothesis RuleBasedStateMachine histories (30 steps, thorough 50) agai
         'mapped to an uncached fill image. A history is non-trivial when an observed rewrite of a tile (stored bytes '
         'or timestamp changed) lies between two conditional requests for that tile; distinct = distinct step lists.')
 ASSUMPTIONS = [
-    'TZ=UTC; backends with timestamps only (file, sqlite); one process, no concurrent requests',
+    'server time zone (TZ of the process, time.tzset before the first request of a history) drawn per history from UTC, '
+    'four zones west and three east of it, with and without DST, in a June or a January week >= 5 weeks away from any '
+    'DST switch (local <-> epoch unambiguous); all date arithmetic of the oracle is UTC (calendar.timegm / tz database), '
+    'independent of the process TZ; backends with timestamps only (file, sqlite); one process, no concurrent requests',
     'virtual clock: mapproxy.cache.base/mbtiles and mapproxy.service.tile see a harness clock that advances 1 ms per '
     'reading; files written by a step get the harness clock as mtime right after the step (the kernel clock cannot be '
     'virtualised), expiry uses refresh_before.mtime marker files touched with the harness clock',
@@ -96,6 +99,11 @@ SERVICES = ['tms', 'wmts-kvp', 'wmts-rest', 'kml', 'wmsc']
 FILL_RGB = (255, 0, 0)
 SOLID_CANDIDATES = [(60 + i, 120 + (i * 7) % 40, 180 - (i * 3) % 50) for i in range(40)]
 CLOCK_BASE = 1750000000.0
+# server time zone (process TZ of the code under test) and season of the virtual clock are generated per history; the
+# clock stays >= 5 weeks away from every DST transition of these zones, so local <-> epoch conversion is unambiguous
+ZONES = ['UTC', 'America/New_York', 'America/Los_Angeles', 'Pacific/Honolulu', 'America/Sao_Paulo', 'Europe/Berlin',
+         'Asia/Kolkata', 'Pacific/Auckland']
+CLOCK_BASES = [CLOCK_BASE, 1736953600.0]      # 2025-06-15 and 2025-01-15 15:06:40 UTC
 ADVANCES = [0.2, 1.0, 2.5, 3600.0, 86400.0]
 DATE_DELTAS = [1, 2, 3600, 86400, 315360000]
 NONE_ETAG = hashlib.md5(b'NoneNone').hexdigest()
@@ -306,7 +314,8 @@ class World(object):
         logging.getLogger('mapproxy').setLevel(logging.CRITICAL)
         from .. import ground
         from ..refgrid import RefGrid
-        _real_time.tzset()
+        self._orig_tz = os.environ.get('TZ')
+        self.zone = None
         self.stats = stats
         self.open_sigs = open_sigs
         self.ground_mod = ground
@@ -350,7 +359,27 @@ class World(object):
             self._patched.append((mod, mod.time))
             mod.time = vt
 
+    def set_zone(self, zone, base=0):
+        """process time zone of the code under test; the harness' own date arithmetic never uses local time"""
+        import datetime
+        import zoneinfo
+        os.environ['TZ'] = zone
+        _real_time.tzset()
+        self.zone = zone
+        self._zoneinfo = zoneinfo.ZoneInfo(zone)
+        self.clock.now = CLOCK_BASES[base]
+        utc = datetime.datetime.fromtimestamp(CLOCK_BASES[base], datetime.timezone.utc)
+        want = int(utc.astimezone(self._zoneinfo).utcoffset().total_seconds())
+        got = _real_time.localtime(CLOCK_BASES[base]).tm_gmtoff
+        if want != got:
+            raise core.HarnessError('TZ=%s not in effect: C library offset %r, tz database %r' % (zone, got, want))
+
     def close(self):
+        if self._orig_tz is None:
+            os.environ.pop('TZ', None)
+        else:
+            os.environ['TZ'] = self._orig_tz
+        _real_time.tzset()
         for mod, orig in self._patched:
             mod.time = orig
         self._patched = []
@@ -396,7 +425,7 @@ class World(object):
         return buf.getvalue()
 
     def reset(self):
-        self.clock.now = CLOCK_BASE
+        self.set_zone('UTC', 0)
         self.content = ('ground', 0)
         self.failing = False
         self.marker_time = {}
@@ -492,7 +521,10 @@ class World(object):
         if row is None:
             return None
         data = bytes(row[0])
-        ts = calendar.timegm(_real_time.strptime(row[1], '%Y-%m-%d %H:%M:%S'))
+        # the sqlite backend stores local time strings: convert with the tz database (not with the C library)
+        import datetime
+        local = datetime.datetime.strptime(row[1], '%Y-%m-%d %H:%M:%S').replace(tzinfo=self._zoneinfo)
+        ts = calendar.timegm(local.utctimetuple())
         return (hashlib.sha1(data).hexdigest()[:16], len(data), float(ts))
 
     def after_op(self, layer):
@@ -519,6 +551,13 @@ class World(object):
         """-> list of Violations of this step"""
         self.steps.append(step)
         op = step['op']
+        if op == 'tz':
+            if len(self.steps) != 1:
+                raise core.HarnessError('the time zone can only be chosen at the start of a history')
+            self.set_zone(step['zone'], step.get('base', 0))
+            self.stats.classes['tz:' + step['zone']] += 1
+            self.stats.classes['season:' + ('jun' if step.get('base', 0) == 0 else 'jan')] += 1
+            return []
         if op == 'get':
             return self.get(step['layer'], step['tile'], step['svc'], tuple(step['inm']), tuple(step['ims']))
         if op == 'rewrite':
@@ -947,9 +986,11 @@ class ConditionalMachine(RuleBasedStateMachine):
         self.focus = ('fm', 0, 'tms')
         self.dead = False
 
-    @initialize(layer=st.sampled_from(LAYER_NAMES), ti=st.integers(0, len(TILES) - 1), svc=st.sampled_from(SERVICES))
-    def start(self, layer, ti, svc):
+    @initialize(layer=st.sampled_from(LAYER_NAMES), ti=st.integers(0, len(TILES) - 1), svc=st.sampled_from(SERVICES),
+                zone=st.sampled_from(ZONES), base=st.integers(0, len(CLOCK_BASES) - 1))
+    def start(self, layer, ti, svc, zone, base):
         self.focus = (layer, ti, svc)
+        self.do({'op': 'tz', 'zone': zone, 'base': base})
 
     def target(self, which, layer, ti, svc=None):
         if which == 'focus':
@@ -1022,7 +1063,7 @@ class ConditionalMachine(RuleBasedStateMachine):
 def machine_shard(shard, nshards, seed, tier):
     st_ = core.Stats()
     if tier == 'quick':
-        n, steps = 2000 // nshards, 30
+        n, steps = 3200 // nshards, 30
     else:
         n, steps = 24000 // nshards, 50
     try:
